@@ -32,6 +32,8 @@ KEYS = tuple(FLOORS["quick"].keys()) + ("back_to_back", "idle_then_arrival", "ar
 # floors for the situations added with the later rounds of seeded changes (evidence that they were really exercised)
 FLOORS["quick"].update({'arrived_between_pick_and_start': 800, 'mixed_type_class_id_cases': 100})
 FLOORS["thorough"].update({'arrived_between_pick_and_start': 4000, 'mixed_type_class_id_cases': 500})
+FLOORS["quick"].update({'counter_polling_observer_cases': 280, 'tiny_weight_cases': 15})
+FLOORS["thorough"].update({'counter_polling_observer_cases': 1400, 'tiny_weight_cases': 75})
 
 
 def plan(tier):
